@@ -34,11 +34,14 @@ def order(**kw):
     return o
 
 
-def dimcfg(vins=(), xins=None, hide=(), prune=False, order=None):
+def dimcfg(vins=(), xins=None, hide=(), prune=False, order=None, smoother=None):
+    """smoother: None (no smoother transform) or {"win": int | None, "omit": bool}"""
     o = dict(ORDER_DEFAULTS)
     o.update(order or {})
+    sm = ({"has": False, "win": None, "omit": False} if smoother is None
+          else {"has": True, "win": smoother.get("win"), "omit": bool(smoother.get("omit"))})
     return {"vins": list(vins), "hasx": xins is not None, "xins": list(xins or ()),
-            "hide": sorted(hide), "prune": prune, "order": o}
+            "hide": sorted(hide), "prune": prune, "order": o, "smoother": sm}
 
 
 def config(rows=None, cols=None):
@@ -60,11 +63,14 @@ def _tla_order(o):
 
 
 def _tla_dimcfg(dc):
-    return ("[vins |-> %s, hasx |-> %s, xins |-> %s, hide |-> %s, prune |-> %s, order |-> %s]"
+    sm = dc.get("smoother") or {"has": False, "win": None}
+    return ("[vins |-> %s, hasx |-> %s, xins |-> %s, hide |-> %s, prune |-> %s, order |-> %s, "
+            "smoother |-> [has |-> %s, win |-> %s]]"
             % ("<<" + ", ".join(_tla_ins(i) for i in dc["vins"]) + ">>",
                tla_value(dc["hasx"]),
                "<<" + ", ".join(_tla_ins(i) for i in dc["xins"]) + ">>",
-               tla_value(set(dc["hide"])), tla_value(dc["prune"]), _tla_order(dc["order"])))
+               tla_value(set(dc["hide"])), tla_value(dc["prune"]), _tla_order(dc["order"]),
+               tla_value(bool(sm["has"])), tla_value(sm["win"])))
 
 
 def tla_configs(cfgs):
@@ -133,6 +139,11 @@ def dim_transforms(dc):
     od = order_dict(dc["order"])
     if od:
         t["order"] = od
+    sm = dc.get("smoother")
+    if sm and sm["has"]:
+        t["smoother"] = {"function": "one_sided_moving_avg"}
+        if not (sm["win"] is None and sm.get("omit")):
+            t["smoother"]["window"] = sm["win"]
     return t
 
 
